@@ -48,6 +48,20 @@ def breakable(tok):
 def render_atoms(atoms, ch, canonical, can_drop_trailing, keep_one):
     """-> list of tokens"""
     toks = []
+    if not canonical:
+        # R8: neighbouring defaults may be written with one repeat count (also across item boundaries, e.g. from
+        # a scalar item into a list item), and neighbouring equal values as n*v
+        merged = []
+        for a in atoms:
+            if merged and a[0] == "d" and merged[-1][0] == "d" and ch.chance(1, 2, "R8-defaults-merged"):
+                merged[-1] = ["d", merged[-1][1] + a[1], "A" if "A" in (merged[-1][2], a[2]) else "S"]
+            elif merged and a[0] in ("v", "r") and merged[-1][0] in ("v", "r") and a[-1] == merged[-1][-1] \
+                    and not (a[-1].startswith("'") and (" " in a[-1] or "\t" in a[-1])) and ch.chance(1, 2, "R8-values-merged"):
+                k = (merged[-1][1] if merged[-1][0] == "r" else 1) + (a[1] if a[0] == "r" else 1)
+                merged[-1] = ["r", k, a[-1]]
+            else:
+                merged.append(list(a))
+        atoms = merged
     n = len(atoms)
     # trailing defaults of SINGLE items may be dropped (record ended early)
     last_keep = n
